@@ -540,6 +540,9 @@ class BuiltinMixin:
         if name == 'get':
             k = self.coerce(args[0], ty.k)
             cell = z3.Select(recv.t, k.t)
+            if isinstance(ty.v, TRef) and not ty.v.nullable and not self.spec_mode:
+                # type invariant of Map[K, Ref[C]]: a stored value is an object, not None
+                st.assume(z3.Implies(ty.vopt.is_some(cell), ty.vopt.val(cell) != null()))
             if len(args) > 1:
                 d = args[1]
                 if isinstance(d.ty, TPy):
@@ -569,7 +572,15 @@ class BuiltinMixin:
                 yield s2, NONE_V
             return
         if name == 'setdefault':
-            raise Unsupported('dict.setdefault')
+            k = self.coerce(args[0], ty.k)
+            d = self.coerce(args[1], ty.v)
+            cell = z3.Select(recv.t, k.t)
+            present = ty.vopt.is_some(cell)
+            val = V(ty.v, z3.If(present, ty.vopt.val(cell), d.t))
+            nv = V(ty, z3.If(present, recv.t, z3.Store(recv.t, k.t, ty.vopt.some(d.t))))
+            for s2 in self.write_through(recv_expr, nv, st, exits):
+                yield s2, val
+            return
         raise Unsupported(f'dict.{name}')
 
     def write_through(self, recv_expr, newv, st, exits):
